@@ -74,6 +74,33 @@ theorem readLineEnding_flat_ne_panic (r : List Item) : (readLineEnding flatSrc r
   | blocked => simp
   | panic => exact absurd (by rw [h1]) (specExact_ne_panic 1 r)
 
+theorem skipTrailersLoop_flat_ne_panic (k : Nat) (r : List Item) :
+    (skipTrailersLoop flatSrc k r).1 ≠ .panic := by
+  induction k generalizing r with
+  | zero => simp [skipTrailersLoop]
+  | succ k ih =>
+    unfold skipTrailersLoop
+    rcases h : readLine flatSrc r Consts.trailerLineLimit with ⟨res, r'⟩
+    cases res with
+    | ok line =>
+      simp only
+      split
+      · simp
+      · exact ih r'
+    | err e => simp
+    | blocked => simp
+    | panic => exact absurd (by rw [h]) (readLine_flat_ne_panic r _)
+
+theorem skipTrailers_flat_ne_panic (r : List Item) : (skipTrailers flatSrc r).1 ≠ .panic :=
+  skipTrailersLoop_flat_ne_panic _ r
+
+theorem chunkEnd_flat_ne_panic (last : Bool) (r : List Item) :
+    (chunkEnd flatSrc last r).1 ≠ .panic := by
+  unfold chunkEnd
+  cases last
+  · exact readLineEnding_flat_ne_panic r
+  · exact skipTrailers_flat_ne_panic r
+
 theorem readChunkSize_flat_ne_panic (c : Chunked (List Item)) :
     (c.readChunkSize flatSrc).1 ≠ .panic := by
   unfold Chunked.readChunkSize
@@ -100,12 +127,12 @@ theorem refillData_flat_ne_panic (c : Chunked (List Item)) (m : Nat) :
     have : ¬ c.remaining < bs.length := by omega
     simp only [this, if_false]
     split
-    · rcases h2 : readLineEnding flatSrc r' with ⟨res2, r''⟩
+    · rcases h2 : chunkEnd flatSrc c.reachedEof r' with ⟨res2, r''⟩
       cases res2 with
       | ok b => cases b <;> simp
       | err e => simp
       | blocked => simp
-      | panic => exact absurd (by rw [h2]) (readLineEnding_flat_ne_panic r')
+      | panic => exact absurd (by rw [h2]) (chunkEnd_flat_ne_panic _ r')
     · simp
   | err e => simp
   | blocked => simp
@@ -406,7 +433,7 @@ theorem hexValue_zeros (zs : Bytes) (h : ∀ b ∈ zs, b = 48) : hexValue zs = 0
 
 theorem SizeOK.of_last {l : LastS} (h : l.WF L) : SizeOK l.zeros l.ext 0 :=
   ⟨h.1, fun b hb => by rw [h.2.1 b hb]; decide, hexValue_zeros _ h.2.1, by decide, h.2.2.1,
-    h.2.2.2.1, h.2.2.2.2⟩
+    h.2.2.2.1, h.2.2.2.2.1⟩
 
 theorem SizeOK.line_nolf {sr ext : Bytes} {n : Nat} (h : SizeOK sr ext n) :
     (10 : UInt8) ∉ sr ++ ext := by
@@ -435,6 +462,87 @@ theorem readLineEnding_crlf (X : List Item) :
     readLineEnding flatSrc (bytesI [13, 10] ++ X) = (.ok true, X) := by
   simp [readLineEnding, flatSrc, bytesI, specExact]
 
+/-! ### The trailer section -/
+
+/-- trailer field lines as the decoder lets them pass: non-empty, LF-free, within the line limit
+    (with their CRLF) -/
+def TrLinesOK (ts : List Bytes) : Prop :=
+  ∀ t ∈ ts, t ≠ [] ∧ (10 : UInt8) ∉ t ∧ t.length + 2 ≤ Consts.trailerLineLimit
+
+theorem TrLinesOK.tail {t : Bytes} {ts : List Bytes} (h : TrLinesOK (t :: ts)) : TrLinesOK ts :=
+  fun x hx => h x (by simp [hx])
+
+theorem TrLinesOK.of_last {l : LastS} {lim : Nat} (h : l.WF lim) : TrLinesOK l.trailers :=
+  h.2.2.2.2.2.1
+
+theorem LastS.WF.trailers_le {l : LastS} {lim : Nat} (h : l.WF lim) :
+    l.trailers.length ≤ Consts.maxTrailerLines := h.2.2.2.2.2.2
+
+theorem encTrailers_nil : encTrailers [] = [] := rfl
+
+theorem encTrailers_cons (t : Bytes) (ts : List Bytes) :
+    encTrailers (t :: ts) = t ++ [13, 10] ++ encTrailers ts := by simp [encTrailers]
+
+theorem trailerLineLimit_two_le : 2 ≤ Consts.trailerLineLimit := by decide
+
+/-- one iteration of `skip_trailers` on a non-empty line -/
+theorem skipTrailersLoop_line (t : Bytes) (hne : t ≠ []) (h10 : (10 : UInt8) ∉ t)
+    (hl : t.length + 2 ≤ Consts.trailerLineLimit) (k : Nat) (Y : List Item) :
+    skipTrailersLoop flatSrc (k + 1) (bytesI (t ++ [13, 10]) ++ Y) = skipTrailersLoop flatSrc k Y := by
+  rw [skipTrailersLoop, readLine_line t h10 _ hl Y]
+  simp only [hne, if_false]
+
+/-- … and on the empty line that ends the section -/
+theorem skipTrailersLoop_end (k : Nat) (Y : List Item) :
+    skipTrailersLoop flatSrc (k + 1) (bytesI [13, 10] ++ Y) = (.ok true, Y) := by
+  have := readLine_line [] (by simp) Consts.trailerLineLimit trailerLineLimit_two_le Y
+  rw [List.nil_append] at this
+  rw [skipTrailersLoop, this]
+  simp only [if_true]
+
+/-- a well-formed trailer section with fewer lines than iterations left is skipped: the decoder
+    stops right behind the empty line -/
+theorem skipTrailersLoop_ok (ts : List Bytes) (hts : TrLinesOK ts) (X : List Item) :
+    ∀ k, ts.length < k →
+      skipTrailersLoop flatSrc k (bytesI (encTrailers ts ++ [13, 10]) ++ X) = (.ok true, X) := by
+  induction ts with
+  | nil =>
+    intro k hk
+    obtain ⟨k', rfl⟩ : ∃ k', k = k' + 1 := ⟨k - 1, by simp at hk; omega⟩
+    rw [encTrailers_nil, List.nil_append]
+    exact skipTrailersLoop_end k' X
+  | cons t ts ih =>
+    intro k hk
+    obtain ⟨k', rfl⟩ : ∃ k', k = k' + 1 := ⟨k - 1, by simp at hk; omega⟩
+    obtain ⟨h1, h2, h3⟩ := hts t (by simp)
+    rw [encTrailers_cons, List.append_assoc, bytesI_append, List.append_assoc,
+      skipTrailersLoop_line t h1 h2 h3]
+    exact ih hts.tail k' (by simpa using hk)
+
+theorem skipTrailers_ok (ts : List Bytes) (hts : TrLinesOK ts)
+    (hn : ts.length ≤ Consts.maxTrailerLines) (X : List Item) :
+    skipTrailers flatSrc (bytesI (encTrailers ts ++ [13, 10]) ++ X) = (.ok true, X) :=
+  skipTrailersLoop_ok ts hts X _ (by omega)
+
+/-- as many well-formed trailer lines as iterations: `Ok(false)` right behind them, whatever
+    follows -/
+theorem skipTrailersLoop_too_many (ts : List Bytes) (hts : TrLinesOK ts) (rest : List Item) :
+    skipTrailersLoop flatSrc ts.length (bytesI (encTrailers ts) ++ rest) = (.ok false, rest) := by
+  induction ts with
+  | nil => simp [encTrailers_nil, bytesI_nil, skipTrailersLoop]
+  | cons t ts ih =>
+    obtain ⟨h1, h2, h3⟩ := hts t (by simp)
+    rw [encTrailers_cons, bytesI_append, List.append_assoc, List.length_cons,
+      skipTrailersLoop_line t h1 h2 h3]
+    exact ih hts.tail
+
+theorem chunkEnd_crlf (last : Bool) (X : List Item) :
+    chunkEnd flatSrc last (bytesI [13, 10] ++ X) = (.ok true, X) := by
+  unfold chunkEnd
+  cases last
+  · exact readLineEnding_crlf X
+  · exact skipTrailersLoop_end _ X
+
 theorem refillData_full (c1 : Chunked (List Item)) (d : Bytes) (X : List Item) (m : Nat)
     (hr : c1.remaining = d.length) (hi : c1.inner = bytesI (d ++ [13, 10]) ++ X) :
     Chunked.refillData flatSrc c1 m =
@@ -453,7 +561,7 @@ theorem refillData_full (c1 : Chunked (List Item)) (d : Bytes) (X : List Item) (
   by_cases h0 : d.length - min d.length m = 0
   · have hd : d.drop (min d.length m) = [] := by
       apply List.drop_eq_nil_of_le; omega
-    simp only [h0, if_true, hd, bytesI_nil, List.nil_append, readLineEnding_crlf, midI]
+    simp only [h0, if_true, hd, bytesI_nil, List.nil_append, chunkEnd_crlf, midI]
   · have hd : d.drop (min d.length m) ≠ [] := by
       intro h
       have := congrArg List.length h
@@ -473,6 +581,35 @@ theorem refill_boundary (c : Chunked (List Item)) (sr ext d : Bytes) (X : List I
   unfold Chunked.refill
   simp only [hr, if_true, readChunkSize_ok c sr ext d.length _ hs hi']
   rw [refillData_full _ d X m rfl rfl]
+
+/-- the data part of the refill on the last-chunk: no data, the trailer section, the empty line -/
+theorem refillData_last (c1 : Chunked (List Item)) (ts : List Bytes) (X : List Item) (m : Nat)
+    (hts : TrLinesOK ts) (hn : ts.length ≤ Consts.maxTrailerLines)
+    (hr : c1.remaining = 0) (he : c1.reachedEof = true)
+    (hi : c1.inner = bytesI (encTrailers ts ++ [13, 10]) ++ X) :
+    Chunked.refillData flatSrc c1 m =
+      (.ok (), { c1 with inner := X, buffer := [], consumed := 0, remaining := 0 }) := by
+  have hspec : flatSrc.readExact c1.inner (min c1.remaining m) = (.ok [], c1.inner) := by
+    rw [hr]; simp [flatSrc]
+  unfold Chunked.refillData
+  rw [hspec]
+  simp only [hr, List.length_nil, Nat.lt_irrefl, if_false, Nat.sub_self, if_true, he, chunkEnd, hi,
+    skipTrailers_ok ts hts hn X]
+
+/-- the refill at the last-chunk: size line `0`, trailer section, empty line -/
+theorem refill_last (c : Chunked (List Item)) (sr ext : Bytes) (ts : List Bytes) (X : List Item)
+    (m : Nat) (hs : SizeOK sr ext 0) (hts : TrLinesOK ts) (hn : ts.length ≤ Consts.maxTrailerLines)
+    (hr : c.remaining = 0)
+    (hi : c.inner = bytesI (sr ++ ext ++ [13, 10] ++ encTrailers ts ++ [13, 10]) ++ X) :
+    Chunked.refill flatSrc c m =
+      (.ok (), { c with inner := X, buffer := [], consumed := 0, remaining := 0,
+                        reachedEof := true }) := by
+  have hi' : c.inner = bytesI (sr ++ ext ++ [13, 10]) ++ (bytesI (encTrailers ts ++ [13, 10]) ++ X) := by
+    rw [hi]; simp only [bytesI_append, List.append_assoc]
+  unfold Chunked.refill
+  simp only [hr, if_true, readChunkSize_ok c sr ext 0 _ hs hi']
+  rw [refillData_last _ ts X m hts hn rfl (by simp) rfl]
+  simp
 
 /-! ## The abstract decoder state -/
 
@@ -668,14 +805,16 @@ theorem step_last (c : Chunked (List Item)) (last : LastS) (hl : last.WF L) (tra
     (c.read flatSrc m n).1 = .ok [] ∧ Done (c.read flatSrc m n).2 := by
   obtain ⟨hf, he, hlen, hr, hi⟩ := rep_nil c _ h
   have hs := SizeOK.of_last hl
-  have hi' : c.inner = bytesI (last.zeros ++ last.ext ++ [13, 10] ++ [] ++ [13, 10]) ++ trail := by
-    rw [hi]; simp [LastS.enc]
+  have hi' : c.inner = bytesI (last.zeros ++ last.ext ++ [13, 10] ++ encTrailers last.trailers ++
+      [13, 10]) ++ trail := by
+    rw [hi]; rfl
   have hfb : c.fillBuf flatSrc m =
       (.ok [], { c with inner := trail, buffer := [], consumed := 0, remaining := 0,
                         reachedEof := true }) := by
     rw [fillBuf_refill_ok _ _ _ m hf (by simp [hlen, he])
-      (refill_boundary c _ _ [] trail m hs hr hi') (by simp)]
-    simp [midI, avail]
+      (refill_last c _ _ last.trailers trail m hs (TrLinesOK.of_last hl) hl.trailers_le hr hi')
+      (by simp)]
+    simp [avail]
   rw [read_of_fillBuf _ _ _ _ n _ hfb]
   exact ⟨by simp, hf, by simp [Chunked.consume], rfl, rfl⟩
 
@@ -932,6 +1071,85 @@ theorem readLineEnding_dead (tail : List Item) (hd : Dead tail) (q : Bytes)
     · exact .inl ⟨e, rfl⟩
     · exact .inr rfl
 
+theorem prefix_crlf_short (p : Bytes) (h : p <+: [13, 10]) (hl : p.length < 2) :
+    p = [] ∨ p = [13] := by
+  match p, h, hl with
+  | [], _, _ => exact .inl rfl
+  | [x], h, _ =>
+    obtain ⟨t, ht⟩ := h
+    simp at ht
+    exact .inr (by rw [ht.1])
+
+theorem skipTrailersLoop_of_readLine_bad (r : List Item) (k : Nat)
+    (h : (readLine flatSrc r Consts.trailerLineLimit).1.Bad) :
+    (skipTrailersLoop flatSrc (k + 1) r).1.Bad := by
+  rw [skipTrailersLoop]
+  rcases hrl : readLine flatSrc r Consts.trailerLineLimit with ⟨res, r'⟩
+  rw [hrl] at h
+  rcases h with ⟨e, rfl⟩ | rfl
+  · exact .inl ⟨e, rfl⟩
+  · exact .inr rfl
+
+/-- the stream is cut inside the trailer section or before the LF of the empty line that ends it:
+    `skip_trailers` fails or stalls — never `Ok` -/
+theorem skipTrailersLoop_dead (tail : List Item) (hd : Dead tail) (ts : List Bytes)
+    (hts : TrLinesOK ts) :
+    ∀ (k : Nat) (q : Bytes), ts.length < k → q <+: encTrailers ts ++ [13, 10] →
+      q.length < (encTrailers ts).length + 2 →
+      (skipTrailersLoop flatSrc k (bytesI q ++ tail)).1.Bad := by
+  induction ts with
+  | nil =>
+    intro k q hk hq hql
+    obtain ⟨k', rfl⟩ : ∃ k', k = k' + 1 := ⟨k - 1, by simp at hk; omega⟩
+    have hq' := prefix_crlf_short q (by simpa [encTrailers_nil] using hq)
+      (by simpa [encTrailers_nil] using hql)
+    have h10 : (10 : UInt8) ∉ q := by rcases hq' with rfl | rfl <;> simp
+    have hlen : q.length < Consts.trailerLineLimit := by
+      have := trailerLineLimit_two_le
+      rcases hq' with rfl | rfl <;> simp <;> omega
+    exact skipTrailersLoop_of_readLine_bad _ k' (readLine_dead tail hd q h10 _ hlen)
+  | cons t ts ih =>
+    intro k q hk hq hql
+    obtain ⟨k', rfl⟩ : ∃ k', k = k' + 1 := ⟨k - 1, by simp at hk; omega⟩
+    obtain ⟨h1, h2, h3⟩ := hts t (by simp)
+    rw [encTrailers_cons] at hq hql
+    by_cases hlt : q.length < t.length + 2
+    · have hpre : t ++ [13] <+: t ++ [13, 10] ++ encTrailers ts ++ [13, 10] :=
+        ⟨[10] ++ encTrailers ts ++ [13, 10], by simp⟩
+      have hq' : q <+: t ++ [13] := List.prefix_of_prefix_length_le hq hpre (by simp; omega)
+      have h10 : (10 : UInt8) ∉ q := by
+        intro hm
+        rcases List.mem_append.mp (hq'.mem hm) with h | h
+        · exact h2 h
+        · simp at h
+      exact skipTrailersLoop_of_readLine_bad _ k' (readLine_dead tail hd q h10 _ (by omega))
+    · have hpre : t ++ [13, 10] <+: t ++ [13, 10] ++ encTrailers ts ++ [13, 10] :=
+        ⟨encTrailers ts ++ [13, 10], by simp⟩
+      obtain ⟨q2, rfl⟩ : t ++ [13, 10] <+: q :=
+        List.prefix_of_prefix_length_le hpre hq (by simp; omega)
+      have hq2 : q2 <+: encTrailers ts ++ [13, 10] := by
+        rw [List.append_assoc (t ++ [13, 10])] at hq
+        exact (List.prefix_append_right_inj _).mp hq
+      rw [bytesI_append, List.append_assoc, skipTrailersLoop_line t h1 h2 h3]
+      exact ih hts.tail k' q2 (by simpa using hk) hq2
+        (by simp only [List.length_append, List.length_cons, List.length_nil] at hql; omega)
+
+theorem skipTrailers_dead (tail : List Item) (hd : Dead tail) (ts : List Bytes)
+    (hts : TrLinesOK ts) (hn : ts.length ≤ Consts.maxTrailerLines) (q : Bytes)
+    (hq : q <+: encTrailers ts ++ [13, 10]) (hql : q.length < (encTrailers ts).length + 2) :
+    (skipTrailers flatSrc (bytesI q ++ tail)).1.Bad :=
+  skipTrailersLoop_dead tail hd ts hts _ q (by omega) hq hql
+
+/-- what ends a chunk, cut before its LF -/
+theorem chunkEnd_dead (tail : List Item) (hd : Dead tail) (last : Bool) (q : Bytes)
+    (hq : q = [] ∨ q = [13]) : (chunkEnd flatSrc last (bytesI q ++ tail)).1.Bad := by
+  unfold chunkEnd
+  cases last
+  · exact readLineEnding_dead tail hd q hq
+  · refine skipTrailers_dead tail hd [] (fun _ h => by simp at h) (Nat.zero_le _) q ?_ ?_
+    · rcases hq with rfl | rfl <;> simp [encTrailers_nil]
+    · rcases hq with rfl | rfl <;> simp [encTrailers_nil]
+
 theorem prefix_drop {α : Type} {q x : List α} (h : q <+: x) (k : Nat) : q.drop k <+: x.drop k := by
   obtain ⟨t, rfl⟩ := h
   rw [List.drop_append]
@@ -942,15 +1160,6 @@ theorem prefix_take_eq {α : Type} {q x : List α} (h : q <+: x) (k : Nat) (hk :
   obtain ⟨t, rfl⟩ := h
   rw [List.take_append, Nat.sub_eq_zero_of_le hk]
   simp
-
-theorem prefix_crlf_short (p : Bytes) (h : p <+: [13, 10]) (hl : p.length < 2) :
-    p = [] ∨ p = [13] := by
-  match p, h, hl with
-  | [], _, _ => exact .inl rfl
-  | [x], h, _ =>
-    obtain ⟨t, ht⟩ := h
-    simp at ht
-    exact .inr (by rw [ht.1])
 
 /-- the data part of a refill when the stream is cut inside `R ++ CRLF` -/
 theorem refillData_trunc (tail : List Item) (hd : Dead tail) (c1 : Chunked (List Item))
@@ -980,10 +1189,10 @@ theorem refillData_trunc (tail : List Item) (hd : Dead tail) (c1 : Chunked (List
         have := prefix_drop hq (min R.length m)
         rwa [List.drop_append_of_le_length hkR, List.drop_eq_nil_of_le (as := R) (by omega),
           List.nil_append] at this
-      have hbad := readLineEnding_dead tail hd _
+      have hbad := chunkEnd_dead tail hd c1.reachedEof _
         (prefix_crlf_short _ hp (by rw [List.length_drop]; omega))
       simp only [h0, if_true]
-      rcases hle : readLineEnding flatSrc (bytesI (q.drop (min R.length m)) ++ tail) with ⟨res, r''⟩
+      rcases hle : chunkEnd flatSrc c1.reachedEof (bytesI (q.drop (min R.length m)) ++ tail) with ⟨res, r''⟩
       rw [hle] at hbad
       rcases hbad with ⟨e, rfl⟩ | rfl
       · exact .inl ⟨e, rfl⟩
@@ -1000,12 +1209,57 @@ theorem refillData_trunc (tail : List Item) (hd : Dead tail) (c1 : Chunked (List
     · exact .inl ⟨e, rfl⟩
     · exact .inr rfl
 
-/-- a refill at a chunk boundary when the stream is cut inside the chunk (or the last-chunk) -/
+/-- the data part of the refill after the last-chunk's size line when the stream is cut inside the
+    trailer section or the empty line that ends it -/
+theorem refillData_trunc_last (tail : List Item) (hd : Dead tail) (c1 : Chunked (List Item))
+    (ts : List Bytes) (q : Bytes) (m : Nat) (hts : TrLinesOK ts)
+    (hn : ts.length ≤ Consts.maxTrailerLines) (hr : c1.remaining = 0) (he : c1.reachedEof = true)
+    (hi : c1.inner = bytesI q ++ tail) (hq : q <+: encTrailers ts ++ [13, 10])
+    (hql : q.length < (encTrailers ts).length + 2) :
+    (Chunked.refillData flatSrc c1 m).1.Bad := by
+  have hspec : flatSrc.readExact c1.inner (min c1.remaining m) = (.ok [], c1.inner) := by
+    rw [hr]; simp [flatSrc]
+  have hbad := skipTrailers_dead tail hd ts hts hn q hq hql
+  unfold Chunked.refillData
+  rw [hspec]
+  simp only [hr, List.length_nil, Nat.lt_irrefl, if_false, Nat.sub_self, if_true, he, chunkEnd, hi]
+  rcases hst : skipTrailers flatSrc (bytesI q ++ tail) with ⟨res, r''⟩
+  rw [hst] at hbad
+  rcases hbad with ⟨e, rfl⟩ | rfl
+  · exact .inl ⟨e, rfl⟩
+  · exact .inr rfl
+
+/-- A chunk or the last-chunk as the decoder accepts it: the size line `sr ++ ext` announces the
+    data `R`; what follows the data is a line ending, preceded — only after the last-chunk, whose
+    data is empty — by the trailer section `ts`. -/
+structure CutOK (sr ext R : Bytes) (ts : List Bytes) : Prop where
+  size : SizeOK sr ext R.length
+  lines : TrLinesOK ts
+  count : ts.length ≤ Consts.maxTrailerLines
+  onlyLast : R ≠ [] → ts = []
+
+/-- its wire form -/
+def cutEnc (sr ext R : Bytes) (ts : List Bytes) : Bytes :=
+  sr ++ ext ++ [13, 10] ++ R ++ encTrailers ts ++ [13, 10]
+
+theorem CutOK.of_chunk {c : ChunkS} (h : c.WF L) : CutOK c.sizeRepr c.ext c.data [] :=
+  ⟨SizeOK.of_chunk h, fun _ hx => by simp at hx, Nat.zero_le _, fun _ => rfl⟩
+
+theorem cutEnc_chunk (c : ChunkS) : cutEnc c.sizeRepr c.ext c.data [] = c.enc := by
+  simp [cutEnc, ChunkS.enc, encTrailers_nil]
+
+theorem CutOK.of_last {l : LastS} (h : l.WF L) : CutOK l.zeros l.ext [] l.trailers :=
+  ⟨SizeOK.of_last h, TrLinesOK.of_last h, h.trailers_le, fun h => absurd rfl h⟩
+
+theorem cutEnc_last (l : LastS) : cutEnc l.zeros l.ext [] l.trailers = l.enc := by
+  simp [cutEnc, LastS.enc]
+
+/-- a refill at a chunk boundary when the stream is cut inside the chunk (or the last-chunk with
+    its trailer section) -/
 theorem refill_trunc (tail : List Item) (hd : Dead tail) (c : Chunked (List Item))
-    (sr ext R q : Bytes) (m : Nat) (hs : SizeOK sr ext R.length) (hr : c.remaining = 0)
-    (hi : c.inner = bytesI q ++ tail)
-    (hq : q <+: sr ++ ext ++ [13, 10] ++ R ++ [13, 10])
-    (hql : q.length < sr.length + ext.length + R.length + 4) :
+    (sr ext R : Bytes) (ts : List Bytes) (q : Bytes) (m : Nat) (hs : CutOK sr ext R ts)
+    (hr : c.remaining = 0) (hi : c.inner = bytesI q ++ tail)
+    (hq : q <+: cutEnc sr ext R ts) (hql : q.length < (cutEnc sr ext R ts).length) :
     (Chunked.refill flatSrc c m).1.Bad ∨
     ∃ q2, min R.length m < R.length ∧ min R.length m ≤ q2.length ∧ q2 <+: R ++ [13, 10] ∧
       q2.length < R.length + 2 ∧
@@ -1014,19 +1268,21 @@ theorem refill_trunc (tail : List Item) (hd : Dead tail) (c : Chunked (List Item
                           buffer := R.take (min R.length m), consumed := 0,
                           remaining := R.length - min R.length m,
                           reachedEof := c.reachedEof || R.length == 0 }) := by
+  have hss := hs.size
+  unfold cutEnc at hq hql
   by_cases hlt : q.length < sr.length + ext.length + 2
   · left
-    have hpre : sr ++ ext ++ [13] <+: sr ++ ext ++ [13, 10] ++ R ++ [13, 10] :=
-      ⟨[10] ++ R ++ [13, 10], by simp⟩
+    have hpre : sr ++ ext ++ [13] <+: sr ++ ext ++ [13, 10] ++ R ++ encTrailers ts ++ [13, 10] :=
+      ⟨[10] ++ R ++ encTrailers ts ++ [13, 10], by simp⟩
     have hq' : q <+: sr ++ ext ++ [13] :=
       List.prefix_of_prefix_length_le hq hpre (by simp; omega)
     have h10 : (10 : UInt8) ∉ q := by
       intro hm
       have := hq'.mem hm
       rcases List.mem_append.mp this with h | h
-      · exact hs.line_nolf h
+      · exact hss.line_nolf h
       · simp at h
-    have hbad := readLine_dead tail hd q h10 L (by have := hs.len; omega)
+    have hbad := readLine_dead tail hd q h10 L (by have := hss.len; omega)
     have hbad2 : (c.readChunkSize flatSrc).1.Bad := by
       unfold Chunked.readChunkSize
       rw [hi]
@@ -1042,15 +1298,15 @@ theorem refill_trunc (tail : List Item) (hd : Dead tail) (c : Chunked (List Item
     rcases hbad2 with ⟨e, rfl⟩ | rfl
     · exact .inl ⟨e, rfl⟩
     · exact .inr rfl
-  · have hpre : sr ++ ext ++ [13, 10] <+: sr ++ ext ++ [13, 10] ++ R ++ [13, 10] :=
-      ⟨R ++ [13, 10], by simp⟩
+  · have hpre : sr ++ ext ++ [13, 10] <+: sr ++ ext ++ [13, 10] ++ R ++ encTrailers ts ++ [13, 10] :=
+      ⟨R ++ encTrailers ts ++ [13, 10], by simp⟩
     obtain ⟨q2, rfl⟩ : sr ++ ext ++ [13, 10] <+: q :=
       List.prefix_of_prefix_length_le hpre hq (by simp; omega)
-    have hq2 : q2 <+: R ++ [13, 10] := by
-      rw [show sr ++ ext ++ [13, 10] ++ R ++ [13, 10] = (sr ++ ext ++ [13, 10]) ++ (R ++ [13, 10]) by
-        simp] at hq
+    have hq2 : q2 <+: R ++ (encTrailers ts ++ [13, 10]) := by
+      rw [show sr ++ ext ++ [13, 10] ++ R ++ encTrailers ts ++ [13, 10] =
+        (sr ++ ext ++ [13, 10]) ++ (R ++ (encTrailers ts ++ [13, 10])) by simp] at hq
       exact (List.prefix_append_right_inj _).mp hq
-    have hq2l : q2.length < R.length + 2 := by
+    have hq2l : q2.length < R.length + (encTrailers ts).length + 2 := by
       simp only [List.length_append, List.length_cons, List.length_nil] at hql; omega
     have hi' : c.inner = bytesI (sr ++ ext ++ [13, 10]) ++ (bytesI q2 ++ tail) := by
       rw [hi, bytesI_append, List.append_assoc]
@@ -1059,13 +1315,22 @@ theorem refill_trunc (tail : List Item) (hd : Dead tail) (c : Chunked (List Item
           { c with inner := bytesI q2 ++ tail, buffer := sr ++ ext, remaining := R.length,
                    reachedEof := c.reachedEof || R.length == 0 } m := by
       unfold Chunked.refill
-      simp only [hr, if_true, readChunkSize_ok c sr ext R.length _ hs hi']
+      simp only [hr, if_true, readChunkSize_ok c sr ext R.length _ hss hi']
     rw [hrf]
-    rcases refillData_trunc tail hd
-      { c with inner := bytesI q2 ++ tail, buffer := sr ++ ext, remaining := R.length,
-               reachedEof := c.reachedEof || R.length == 0 } R q2 m rfl rfl hq2 hq2l with h | ⟨h1, h2, h3⟩
-    · exact .inl h
-    · exact .inr ⟨q2, h1, h2, hq2, hq2l, h3⟩
+    by_cases hR : R = []
+    · subst hR
+      left
+      exact refillData_trunc_last tail hd _ ts q2 m hs.lines hs.count rfl (by simp) rfl
+        (by simpa using hq2) (by simpa using hq2l)
+    · have hts := hs.onlyLast hR
+      subst hts
+      rw [encTrailers_nil, List.nil_append] at hq2
+      rw [encTrailers_nil, List.length_nil, Nat.add_zero] at hq2l
+      rcases refillData_trunc tail hd
+        { c with inner := bytesI q2 ++ tail, buffer := sr ++ ext, remaining := R.length,
+                 reachedEof := c.reachedEof || R.length == 0 } R q2 m rfl rfl hq2 hq2l with h | ⟨h1, h2, h3⟩
+      · exact .inl h
+      · exact .inr ⟨q2, h1, h2, hq2, hq2l, h3⟩
 
 /-! ## Truncated streams: the decoder -/
 
@@ -1112,15 +1377,14 @@ theorem read_after_fill (S : Src σ) (c c' : Chunked σ) (m n : Nat)
         List.drop_eq_nil_of_le (by omega)]
 
 /-- The back end is in step with a stream that is cut (`tail` is `Dead`) inside the chunk being
-    read or inside the chunk / last-chunk that starts here; `R` is the data of that chunk that has
-    not been buffered yet (an upper bound of what can still come). -/
+    read or inside the chunk / last-chunk (with its trailer section `ts`) that starts here; `R` is
+    the data of that chunk that has not been buffered yet (an upper bound of what can still come). -/
 def TGood (tail : List Item) (c : Chunked (List Item)) (R : Bytes) : Prop :=
   c.failed = false ∧ c.reachedEof = false ∧
   ((∃ q, R ≠ [] ∧ c.remaining = R.length ∧ c.inner = bytesI q ++ tail ∧
       q <+: R ++ [13, 10] ∧ q.length < R.length + 2) ∨
-   (∃ sr ext q, SizeOK sr ext R.length ∧ c.remaining = 0 ∧ c.inner = bytesI q ++ tail ∧
-      q <+: sr ++ ext ++ [13, 10] ++ R ++ [13, 10] ∧
-      q.length < sr.length + ext.length + R.length + 4))
+   (∃ sr ext ts q, CutOK sr ext R ts ∧ c.remaining = 0 ∧ c.inner = bytesI q ++ tail ∧
+      q <+: cutEnc sr ext R ts ∧ q.length < (cutEnc sr ext R ts).length))
 
 def TRep (tail : List Item) (c : Chunked (List Item)) (P : Bytes) : Prop :=
   c.consumed ≤ c.buffer.length ∧ ∃ R, TGood tail c R ∧ P = avail c ++ R
@@ -1148,7 +1412,7 @@ theorem fillBuf_tgood (tail : List Item) (hd : Dead tail) (c : Chunked (List Ite
   · have hlen := (avail_eq_nil_iff c hc).mp hav
     have hcond : c.buffer.length = c.consumed ∧ ¬ (c.remaining = 0 ∧ c.reachedEof) := by
       simp [hlen, he]
-    rcases hcase with ⟨q, hRne, hr, hi, hq, hql⟩ | ⟨sr, ext, q, hs, hr, hi, hq, hql⟩
+    rcases hcase with ⟨q, hRne, hr, hi, hq, hql⟩ | ⟨sr, ext, ts, q, hs, hr, hi, hq, hql⟩
     · have hrem : ¬ c.remaining = 0 := by
         have := List.length_pos_iff.mpr hRne; omega
       have hrf : c.refill flatSrc m = Chunked.refillData flatSrc c m := by
@@ -1161,7 +1425,7 @@ theorem fillBuf_tgood (tail : List Item) (hd : Dead tail) (c : Chunked (List Ite
         · simpa [avail] using take_min_ne_nil R m hRne hm
         · exact tgood_after tail _ R q _ hf he h1 h2 hq hql rfl rfl
         · rw [hav]; simp [avail]
-    · rcases refill_trunc tail hd c sr ext R q m hs hr hi hq hql with hb | ⟨q2, h1, h2, hq2, hq2l, h3⟩
+    · rcases refill_trunc tail hd c sr ext R ts q m hs hr hi hq hql with hb | ⟨q2, h1, h2, hq2, hq2l, h3⟩
       · exact .inr (fillBuf_refill_bad _ _ _ hf hcond hb)
       · have hRne : R ≠ [] := by
           intro h; subst h; simp at h1
@@ -1297,11 +1561,12 @@ theorem trunc_run (tail : List Item) (hd : Dead tail) (m : Nat) (hm : 0 < m) (ns
       exact TruncOutcome.cons_ok n ns out P' _ hne (ih _ P' hrep')
     · exact TruncOutcome.of_failed n ns _ _ P hb (failed_run _ m ns _ hfl)
 
-/-- complete chunks first, then a cut inside a chunk or the last-chunk whose data is `d` -/
+/-- complete chunks first, then a cut inside a chunk whose data is `d`, or inside the last-chunk
+    (`d = []`) and its trailer section -/
 theorem truncated_run (tail : List Item) (hd : Dead tail) (m : Nat) (hm : 0 < m)
-    (sr ext d part : Bytes) (hs : SizeOK sr ext d.length)
-    (hq : part <+: sr ++ ext ++ [13, 10] ++ d ++ [13, 10])
-    (hql : part.length < sr.length + ext.length + d.length + 4) (ns : List Nat) :
+    (sr ext d : Bytes) (ts : List Bytes) (part : Bytes) (hs : CutOK sr ext d ts)
+    (hq : part <+: cutEnc sr ext d ts)
+    (hql : part.length < (cutEnc sr ext d ts).length) (ns : List Nat) :
     ∀ (c : Chunked (List Item)) (P : Bytes), Rep c P (bytesI part ++ tail) →
       TruncOutcome ns (readsC flatSrc m ns c).1 (P ++ d) := by
   induction ns with
@@ -1313,7 +1578,7 @@ theorem truncated_run (tail : List Item) (hd : Dead tail) (m : Nat) (hm : 0 < m)
     · subst hP
       obtain ⟨hf, he, hlen, hr, hi⟩ := rep_nil c _ hrep
       have ht : TRep tail c ([] ++ d) :=
-        ⟨hrep.1, d, ⟨hf, he, .inr ⟨sr, ext, part, hs, hr, hi, hq, hql⟩⟩, by
+        ⟨hrep.1, d, ⟨hf, he, .inr ⟨sr, ext, ts, part, hs, hr, hi, hq, hql⟩⟩, by
           rw [(avail_eq_nil_iff c hrep.1).mpr hlen]⟩
       exact trunc_run tail hd m hm (n :: ns) c _ ht
     · obtain ⟨out, P', h1, rfl, _, hne, hrep'⟩ := step_progress c P _ m n hm hrep hP
@@ -1325,9 +1590,9 @@ theorem truncated_run (tail : List Item) (hd : Dead tail) (m : Nat) (hm : 0 < m)
 /-- (C) in the common form used for both a cut chunk and a cut last-chunk. -/
 theorem chunked_truncated_gen (cs : List ChunkS) (hwf : ∀ c ∈ cs, c.WF L) (part : Bytes)
     (tailItems : List Item) (maxBuf : Nat) (hmb : 0 < maxBuf) (ns : List Nat)
-    (sr ext d : Bytes) (hs : SizeOK sr ext d.length)
-    (hq : part <+: sr ++ ext ++ [13, 10] ++ d ++ [13, 10])
-    (hql : part.length < sr.length + ext.length + d.length + 4) (ht : Dead tailItems) :
+    (sr ext d : Bytes) (ts : List Bytes) (hs : CutOK sr ext d ts)
+    (hq : part <+: cutEnc sr ext d ts)
+    (hql : part.length < (cutEnc sr ext d ts).length) (ht : Dead tailItems) :
     let evs := (readsC flatSrc maxBuf ns (fresh (bytesI (encChunks cs ++ part) ++ tailItems))).1
     (∀ i (hi : i < ns.length), 0 < ns[i] → evs[i]? ≠ some (.ok [])) ∧
     (∀ e ∈ evs, e ≠ .panic) ∧
@@ -1338,7 +1603,7 @@ theorem chunked_truncated_gen (cs : List ChunkS) (hwf : ∀ c ∈ cs, c.WF L) (p
       bytesI (encChunks cs) ++ (bytesI part ++ tailItems) := by
     simp [bytesI_append]
   rw [h]
-  obtain ⟨h1, h2, h3⟩ := truncated_run tailItems ht maxBuf hmb sr ext d part hs hq hql ns _ _
+  obtain ⟨h1, h2, h3⟩ := truncated_run tailItems ht maxBuf hmb sr ext d ts part hs hq hql ns _ _
     (rep_fresh cs hwf (bytesI part ++ tailItems))
   exact ⟨h1, chunked_no_panic [] maxBuf ns _ (Nat.le_refl _), h2, h3⟩
 
@@ -1355,10 +1620,8 @@ theorem chunked_truncated_in_chunk (cs : List ChunkS) (hwf : ∀ c ∈ cs, c.WF 
     delivered evs <+: payloadOf cs ++ c.data ∧
     (∀ i j, i ≤ j → j < evs.length → (∀ bs, evs[i]? ≠ some (.ok bs)) →
       (∀ bs, evs[j]? ≠ some (.ok bs))) :=
-  chunked_truncated_gen cs hwf part tailItems maxBuf hmb ns c.sizeRepr c.ext c.data
-    (SizeOK.of_chunk hc) hpre
-    (by simp only [ChunkS.enc, List.length_append, List.length_cons, List.length_nil] at hlen; omega)
-    ht
+  chunked_truncated_gen cs hwf part tailItems maxBuf hmb ns c.sizeRepr c.ext c.data []
+    (CutOK.of_chunk hc) (by rw [cutEnc_chunk]; exact hpre) (by rw [cutEnc_chunk]; exact hlen) ht
 
 /-- (C), the stream is cut strictly inside the last-chunk: only data of complete chunks shows. -/
 theorem chunked_truncated_in_last (cs : List ChunkS) (hwf : ∀ c ∈ cs, c.WF L) (part : Bytes)
@@ -1372,12 +1635,8 @@ theorem chunked_truncated_in_last (cs : List ChunkS) (hwf : ∀ c ∈ cs, c.WF L
     delivered evs <+: payloadOf cs ∧
     (∀ i j, i ≤ j → j < evs.length → (∀ bs, evs[i]? ≠ some (.ok bs)) →
       (∀ bs, evs[j]? ≠ some (.ok bs))) := by
-  have henc : l.zeros ++ l.ext ++ [13, 10] ++ [] ++ [13, 10] = l.enc := by simp [LastS.enc]
-  have := chunked_truncated_gen cs hwf part tailItems maxBuf hmb ns l.zeros l.ext []
-    (SizeOK.of_last hl) (by rw [henc]; exact hpre)
-    (by simp only [LastS.enc, List.length_append, List.length_cons, List.length_nil] at hlen
-        simp only [List.length_nil]; omega)
-    ht
+  have := chunked_truncated_gen cs hwf part tailItems maxBuf hmb ns l.zeros l.ext [] l.trailers
+    (CutOK.of_last hl) (by rw [cutEnc_last]; exact hpre) (by rw [cutEnc_last]; exact hlen) ht
   simpa using this
 
 /-- (C) as one statement: `d` is the data of the cut chunk, or empty for a cut last-chunk. -/
